@@ -201,7 +201,8 @@ class Acl(AceGroup):
                 raise TypeError(f"{item=} {str} expected")
         self._items = _items
 
-        if self._group_by:
+        # items that are already grouped keep their blocks (uuid, note, sequence)
+        if self._group_by and not any(isinstance(o, AceGroup) for o in _items):
             self.group(group_by=self._group_by)
 
     @property
@@ -556,7 +557,7 @@ class Acl(AceGroup):
                 ace_o.ungroup_ports()
             _items.append(ace_o)
         self.items = _items
-        if self._group_by:
+        if self._group_by and not all(isinstance(o, AceGroup) for o in self._items):
             self.group(group_by=self._group_by)
 
     def ungroup(self) -> None:
